@@ -59,6 +59,39 @@ def tagger(name, log=None):
     return f
 
 
+# Filter calls with arguments: abstract token (as in MC_Filters.CallToks) -> the literal spelling.  Single quotes only, so that
+# the same spelling can stand in ${x | ...}, in filter="..." and in expression_filter="...".
+CALL_SRC = {
+    "k(int)": "k(7)", "k(name)": "k(nm)", "k(sp1)": "k(' ')", "k(sp2)": "k('  x   y')", "k(tab)": "k('a\tb')",
+    "k(nbsp)": "k('a\xa0b')", "k(tq)": "k(\'\'\'l1\n  l2\'\'\')", "k(punct)": "k(', | } ) # ')", "k(kw)": "k(sep='  ')",
+    "k(nested)": "k(inner('  '))", "k(list)": "k([1, ' \t '])", "k(dict)": "k({'a': '  '})", "k(two)": "k('  ', 7)",
+}
+
+
+def _inner(x):
+    return x + "!"
+
+
+def _cap(*a, **kw):
+    return repr((a, sorted(kw.items())))
+
+
+# the exact argument values each spelling denotes (CPython evaluates the literal), for the recording callable
+CALL_REV = {eval("_cap" + src[1:], {"_cap": _cap, "nm": "NM", "inner": _inner}): tok for tok, src in CALL_SRC.items()}
+
+
+def make_k(log=None):
+    """k(args...) -> a tagging filter named after the argument token whose EXACT values it received."""
+    def k(*a, **kw):
+        key = _cap(*a, **kw)
+        return tagger(CALL_REV.get(key, "k(?%s)" % key), log)
+    return k
+
+
+def tok_src(t):
+    return CALL_SRC.get(t, t)
+
+
 def make_g(log=None):
     def g(n):
         return tagger("g(%s)" % (n,), log)
@@ -100,6 +133,8 @@ def reference(name):
         return ref_entity
     if name == "str":
         return str
+    if name == "repr":
+        return repr                # a Python builtin used as a filter: "the callable of that name visible to the template"
     if name.startswith("decode."):
         return lambda x: x if isinstance(x, str) else (x.decode(name[7:]) if isinstance(x, bytes) else str(x))
     return tagger(name)
@@ -117,6 +152,7 @@ def install_module(log=None):
     m = types.ModuleType("c02_filters")
     for nm in ("d1", "d2", "p1", "p2", "b1"):
         setattr(m, nm, tagger(nm, log))
+    m.k, m.nm, m.inner = make_k(log), "NM", _inner        # for calls written in <%page expression_filter>
     sys.modules["c02_filters"] = m
     return m
 
@@ -130,7 +166,7 @@ def item_text(it, k, variant=0):
     """Template text of the k-th construct (names of defs are made unique by k)."""
     c, E = it["c"], it["E"]
     sep = [", ", ",", " ,  "][variant % 3]
-    fl = sep.join(E)
+    fl = sep.join(tok_src(t) for t in E)
     flt = (' filter="%s"' % fl) if fl else ""
     fn = "fn%d" % k
     if c == "expr":
@@ -156,7 +192,7 @@ def item_text(it, k, variant=0):
 def template_texts(cfg, variant=0):
     """The one or two templates of a session.  Anonymous blocks are named after their line: one construct per line."""
     sep = [", ", ",", " ,  "][variant % 3]
-    page = "" if cfg["P"] == ABSENT else '<%%page expression_filter="%s"/>' % sep.join(cfg["P"])
+    page = "" if cfg["P"] == ABSENT else '<%%page expression_filter="%s"/>' % sep.join(tok_src(t) for t in cfg["P"])
     nl = "" if len(cfg["items"]) == 1 else "\n"
     t1 = page + nl.join(item_text(it, k + 1, variant) for k, it in enumerate(cfg["items"]))
     t2 = None
@@ -170,10 +206,23 @@ def template_text(cfg, variant=0):
     return t1 if t2 is None else t1 + "  ++  " + t2
 
 
-IMPORTS = ["from c02_filters import d1, d2, p1, p2, b1"]
+IMPORTS = ["from c02_filters import d1, d2, p1, p2, b1, k, nm, inner"]
 
 
-def render_config(cfg, variant=0, log=None):
+def input_value(kind):
+    """The value of `v`: a str (Val), or -- when the first filter applied is decode.<enc> -- bytes in that encoding."""
+    return Val(RAW) if kind == "str" else RAW.encode(kind)
+
+
+def input_kind(cfg, apps, variant):
+    it = cfg["items"][0]
+    if it["c"] == "expr" and len(cfg["items"]) == 1 and not cfg["items2"] and apps and apps[0] and apps[0][0].startswith("decode.") \
+            and variant % 2 == 1:
+        return apps[0][0][7:]
+    return "str"
+
+
+def render_config(cfg, variant=0, log=None, kind="str"):
     """('ok', output(s), template text) | ('mutated', what, text) | ('exc', Type, msg, text).
     The default_filters / buffer_filters list OBJECTS are created once per session and shared by everything compiled in
     it -- by both templates directly, or through one TemplateLookup -- and their content is looked at afterwards."""
@@ -198,7 +247,8 @@ def render_config(cfg, variant=0, log=None):
             tmpls = [lk.get_template(u) for u in (("t1", "t2") if t2 is not None else ("t1",))]
         if log is not None:
             _interpose(tmpls[0], log)
-        ctx = {"v": Val(RAW), "f1": tagger("f1", log), "f2": tagger("f2", log), "g": make_g(log)}
+        ctx = {"v": input_value(kind), "f1": tagger("f1", log), "f2": tagger("f2", log), "g": make_g(log),
+               "k": make_k(log), "nm": "NM", "inner": _inner, "max": tagger("max", log)}
         try:
             out = "\n--\n".join(t.render_unicode(**ctx) for t in tmpls)
         finally:
@@ -248,22 +298,23 @@ def _restore():
     _saved.clear()
 
 
-def expected_output(cfg, apps):
+def expected_output(cfg, apps, kind="str"):
     """apps: one application sequence per construct (items of template 1, then of template 2)."""
     n1 = len(cfg["items"])
     res = []
     for part, aa in ((cfg["items"], apps[:n1]), (cfg["items2"], apps[n1:])):
         if not part:
             continue
-        pieces = ["[" + str(apply_reference(a, Val(RAW) if it["c"] == "expr" else BODY)) + "]" for it, a in zip(part, aa)]
+        pieces = ["[" + str(apply_reference(a, input_value(kind) if it["c"] == "expr" else BODY)) + "]" for it, a in zip(part, aa)]
         res.append(("" if len(part) == 1 and part is cfg["items"] else "\n").join(pieces))
     return "\n--\n".join(res)
 
 
 def check_config(job):
     cfg, apps, variant = job
-    exp = expected_output(cfg, apps)
-    obs = render_config(cfg, variant)
+    kind = input_kind(cfg, apps, variant)
+    exp = expected_output(cfg, apps, kind)
+    obs = render_config(cfg, variant, kind=kind)
     if obs[0] == "ok" and obs[1] == exp:
         return None
     return {"cfg": cfg, "template": obs[-1], "expected_applications": apps, "expected_output": exp, "observed": obs[:-1]}
@@ -345,7 +396,8 @@ def check_scan_case(job):
 
 
 # ----------------------------------------------------------------------------- V: observed applications
-E_TOKENS = ["h", "x", "u", "trim", "entity", "str", "unicode", "n", "f1", "f2", "g(1)", "decode.utf8"]
+E_TOKENS = ["h", "x", "u", "trim", "entity", "str", "unicode", "n", "f1", "f2", "g(1)", "decode.utf8", "decode.latin1",
+            "k(sp2)", "k(tab)", "k(tq)", "k(kw)", "k(two)", "max"]
 
 
 def random_config(rng):
